@@ -19,6 +19,8 @@ pub open spec fn is_ident_tok(tok: Seq<char>, name: Seq<char>, ql: char, qr: cha
     forall|rest: Seq<char>| (rest.len() == 0 || rest[0] != qr) ==> #[trigger] quoted_ident(tok + rest, ql, qr) == Some((name, tok.len() as int))
 }
 pub open spec fn dblq(s: Seq<char>, q: char) -> Seq<char> { replace_char(s, q, seq![q, q]) }
+// the identifier token for `name` under quote q: left quote, the name with the right quote doubled, right quote
+pub open spec fn tokq(name: Seq<char>, q: Quote) -> Seq<char> { seq![q.0 as char] + dblq(name, q.1 as char) + seq![q.1 as char] }
 
 pub proof fn lemma_ident_body_dbl(pre: Seq<char>, s: Seq<char>, rest: Seq<char>, acc: Seq<char>, q: char)
     requires rest.len() == 0 || rest[0] != q,
